@@ -273,11 +273,17 @@ static void run_request(const std::string& ep, long a, long b, long c, long d, l
 		sink   = Find_Root(f, 1.0, 3.0, 1e-8);
 	}
 	else if(ep == "Method1D")
-		sink = Integrate([](double x) { return x * x; }, 0.0, 1.0, std::string(names1d[a]));
+		sink = Integrate([](double x) { return x * x; }, b == 1 ? 1.0 : 0.0, 1.0, std::string(names1d[a]));
 	else if(ep == "Method2D")
-		sink = Integrate_2D([](double x, double y) { return x * y; }, 0.0, 1.0, 0.0, 1.0, std::string(namesNd[a]), a >= 6 ? 2000 : 0);
+		sink = Integrate_2D([](double x, double y) { return x * y; }, b == 1 ? 1.0 : 0.0, 1.0, 0.0, 1.0, std::string(namesNd[a]), a >= 6 ? 2000 : 0);
 	else if(ep == "Method3D")
-		sink = Integrate_3D([](double x, double y, double z) { return x * y + z; }, 0.0, 1.0, 0.0, 1.0, 0.0, 1.0, std::string(namesNd[a]), a >= 6 ? 2000 : 0);
+	{
+		// both overloads (Cartesian and spherical-vector integrand); b = 1: the outermost range is empty
+		if(c == 0)
+			sink = Integrate_3D([](double x, double y, double z) { return x * y + z; }, b == 1 ? 1.0 : 0.0, 1.0, 0.0, 1.0, 0.0, 1.0, std::string(namesNd[a]), a >= 6 ? 2000 : 0);
+		else
+			sink = Integrate_3D([](Vector v) { return 1.0 + v[2]; }, b == 1 ? 1.0 : 0.5, 1.0, -0.5, 0.5, 0.0, 1.0, std::string(namesNd[a]), a >= 6 ? 2000 : 0);
+	}
 	else if(ep == "MethodMC")
 	{
 		std::function<double(std::vector<double>&, const double)> f = [](std::vector<double>& x, const double) { return x[0] + x[1]; };
